@@ -67,6 +67,11 @@ func cfgClass(c Cfg) string {
 // InBubble runs f inside a synctest bubble (virtual clock starting 2000-01-01) on a child
 // goroutine so that runtime.Goexit in f is harmless.
 func InBubble(t *testing.T, f func()) {
+	if curKeeper != nil {
+		// already inside the one bubble of a search that keeps its pool (bubbles do not nest)
+		NoBubble(f)
+		return
+	}
 	// goroutines of a batching pool stay parked when the execution ends; sched.Bubble tolerates that
 	_, other := sched.Bubble(t, func() {
 		done := make(chan struct{})
@@ -112,6 +117,22 @@ func RunSeq(sc SeqScenario, o SeqOpts) *SeqResult {
 			res.Findings = append(res.Findings, *f)
 		}
 	}()
+	ops := sc.Ops
+	if curKeeper != nil {
+		// executions sharing one bubble start on a whole (virtual) second, as those with a bubble of
+		// their own do: relative expiry times in state keys must not depend on the phase of the clock
+		now := time.Now()
+		time.Sleep(now.Truncate(time.Second).Add(time.Second).Sub(now))
+		// ... and absolute expiry times in the alphabets are meant relative to the start of the
+		// execution (a bubble of its own starts at bubbleEpoch)
+		shift := uint32(time.Now().Unix() - bubbleEpoch)
+		ops = append([]wire.Op{}, sc.Ops...)
+		for i := range ops {
+			if ops[i].TTL > 30*24*3600 {
+				ops[i].TTL += shift
+			}
+		}
+	}
 	w := NewWorld(sc.Cfg)
 	w.SeqGuard = true
 	defer w.Release()
@@ -136,7 +157,7 @@ func RunSeq(sc SeqScenario, o SeqOpts) *SeqResult {
 		})
 	}
 	var all []*Session
-	for i, op := range sc.Ops {
+	for i, op := range ops {
 		switch op.Kind {
 		case "evict":
 			if sc.Cfg.L1H == "chunked" {
@@ -200,7 +221,7 @@ func RunSeq(sc SeqScenario, o SeqOpts) *SeqResult {
 			}
 		}
 		if o.ExtraCheck != nil {
-			if c, d := o.ExtraCheck(w, m, i, op, sc.Ops[:i+1]); c != "" {
+			if c, d := o.ExtraCheck(w, m, i, op, ops[:i+1]); c != "" {
 				add(i, c, d, op, "-", "-")
 			}
 		}
@@ -233,8 +254,8 @@ func RunSeq(sc SeqScenario, o SeqOpts) *SeqResult {
 				res.FailSeen = true
 			}
 			res.LastDependsOnState = len(r.Hits) > 0 || r.Class == "refused" || r.Misses > 0
-			if c, d := Diff(sc.Ops[p.op], p.e, r); c != "" {
-				add(p.op, c, d, sc.Ops[p.op], p.e.Class, r.Class)
+			if c, d := Diff(ops[p.op], p.e, r); c != "" {
+				add(p.op, c, d, ops[p.op], p.e.Class, r.Class)
 			}
 		}
 	}
@@ -291,6 +312,15 @@ type BFSOpts struct {
 }
 
 func BFS(c *rt.Ctx, harness string, cfg Cfg, alphabet []wire.Op, bo BFSOpts) (states, trans int, complete bool) {
+	if bo.Bubble && cfg.L1H == "batched" && !cfg.App && curKeeper == nil {
+		// see poolKeeper: one bubble and one pool for the whole search
+		InBubble(c.T, func() {
+			release := KeepPool()
+			defer release()
+			states, trans, complete = BFS(c, harness, cfg, alphabet, bo)
+		})
+		return
+	}
 	run := func(sc SeqScenario) *SeqResult {
 		var r *SeqResult
 		if bo.Bubble {
